@@ -5201,7 +5201,8 @@ impl GlobalInferenceCtx<'_> {
             Expr::Member {
                 previous,
                 name: field,
-            } => match self.tys[self.loc][*previous].as_ref() {
+            // `previous` belongs to `loc` (which isn't `self.loc` once a global's value is followed)
+            } => match self.tys[loc][*previous].as_ref() {
                 Ty::File(file) => {
                     let ufqn = Fqn {
                         file: *file,
